@@ -328,6 +328,63 @@ def run(run, ix, tier):
     run.rule('V-R6', floor=4, desc='every __float__ / __complex__ passes a rounding mode to to_float')
     run.rule('V-R7', floor=1, desc='a Python complex operand of an mpf is converted exactly')
     check_more_wiring(run, ix)
+    run.rule('V-R8', floor=3, desc='to_float rounds once: no bits of the mantissa are dropped outside the rounding call')
+    check_single_rounding(run, ix)
+
+
+LOSSY = (ast.RShift, ast.FloorDiv, ast.BitAnd, ast.Mod, ast.Div)
+
+
+def check_single_rounding(run, ix):
+    """V-R8 (seed C09-7).  The only place where `to_float` may lose bits of the stored number is the one
+    normalize1/normalize call that rounds to 53 bits with the caller's mode.  Any other statement that
+    rebinds one of the unpacked fields (sign, man, exp, bc) through a lossy operator (>>, //, &, %, /) or
+    through a call drops the low ("sticky") bits first: a value just above the midpoint of two doubles
+    is then put exactly on the tie and rounded to even, and a directed mode sees an exact value."""
+    f = ix.func(LIBMPF, 'to_float')
+    fn = f.node
+    fields = None
+    for st in _walk_own(fn):
+        if isinstance(st, ast.Assign) and isinstance(st.targets[0], ast.Tuple) and \
+                isinstance(st.value, ast.Name) and st.value.id == f.params[0]:
+            fields = [norm(e) for e in st.targets[0].elts]
+            break
+    if not fields or len(fields) != 4:
+        raise AnalysisError('V-R8: to_float does not unpack its argument into four fields')
+    run.ok('V-R8', 'fields unpacked once from the argument: %s' % ', '.join(fields))
+    n = 0
+    for st in _walk_own(fn):
+        tgts, val, aug = [], None, None
+        if isinstance(st, ast.Assign):
+            for t in st.targets:
+                tgts += [norm(e) for e in (t.elts if isinstance(t, ast.Tuple) else [t])]
+            val = st.value
+        elif isinstance(st, ast.AugAssign):
+            tgts, val, aug = [norm(st.target)], st.value, st.op
+        else:
+            continue
+        if not set(tgts) & set(fields):
+            continue
+        n += 1
+        if isinstance(val, ast.Name) and val.id == f.params[0]:
+            continue
+        if isinstance(val, ast.Call) and norm(val.func) in ('normalize1', 'normalize') and \
+                [norm(a) for a in val.args[:4]] == fields:
+            run.ok('V-R8', '`%s`: the rounding call receives the fields as unpacked' % norm(st, 70))
+            continue
+        lossy = [x for x in ast.walk(val) if (isinstance(x, ast.BinOp) and isinstance(x.op, LOSSY)) or
+                 isinstance(x, ast.Call)]
+        if aug is not None and isinstance(aug, LOSSY):
+            lossy.append(st)
+        if lossy:
+            run.fail(F('V-R8', LIBMPF, 'to_float', st, 'a field of the number is shortened or recomputed (`%s`) outside '
+                       'the 53-bit rounding call: the dropped low bits no longer take part in the rounding, so values '
+                       'just above a midpoint (or any inexact value under a directed mode) go to the wrong double'
+                       % norm(lossy[0], 50)))
+        else:
+            run.ok('V-R8', '`%s` is exact' % norm(st, 60))
+    if n < 3:
+        raise AnalysisError('V-R8: only %d assignments to the fields in to_float' % n)
 
 
 def check_pure(run, ix):
